@@ -9,6 +9,7 @@ import (
 
 	protocol "github.com/hujm2023/go-sms-protocol"
 	"github.com/hujm2023/go-sms-protocol/cmpp"
+	"github.com/hujm2023/go-sms-protocol/cmpp/cmpp20"
 	"github.com/hujm2023/go-sms-protocol/codec"
 	"github.com/hujm2023/go-sms-protocol/datacoding"
 	"github.com/hujm2023/go-sms-protocol/datacoding/gsm7encoding"
@@ -46,6 +47,7 @@ func init() {
 					{Mode: "truncate-all", Count: 57 * 200 * hostileGroup, Exhaustive: true, Group: hostileGroup},
 					{Mode: "subst-all", Count: 57 * 400 * 64, Exhaustive: true, Group: 64},
 					{Mode: "text-cuts", Count: textCutCount(), Exhaustive: true},
+					{Mode: "header-words", Count: 3 * 0x400, Exhaustive: true},
 					{Mode: "seeded", Count: 16000000},
 				}
 			}
@@ -53,6 +55,7 @@ func init() {
 				{Mode: "truncate-all", Count: 57 * 6 * hostileGroup, Exhaustive: true, Group: hostileGroup},
 				{Mode: "subst-all", Count: 57 * 12 * 64, Exhaustive: true, Group: 64},
 				{Mode: "text-cuts", Count: textCutCount(), Exhaustive: true},
+				{Mode: "header-words", Count: 3 * 0x400, Exhaustive: true},
 				{Mode: "seeded", Count: 200000},
 			}
 		},
@@ -226,6 +229,20 @@ func runHostile(r *core.Run) {
 		r.Fault("subst")
 		r.Event("subst %s offset %d := %#x (len %d)", pd.Site(), offs[oi], substVals[vi], len(img))
 		h.receive(pd, mut, false, "subst")
+		return
+	case "header-words":
+		// a receiver renders what it was sent (a log line per frame): every value of the command and status words in
+		// 0..0x3ff, 0x80000000..0x800003ff and 0xfffffc00..0xffffffff goes through every renderer of header values
+		v := uint32(r.Cfg.Index % 0x400)
+		switch r.Cfg.Index / 0x400 {
+		case 1:
+			v |= 0x80000000
+		case 2:
+			v |= 0xfffffc00
+		}
+		r.Fault("header_word")
+		r.Event("header word %#x", v)
+		h.renderWord(v)
 		return
 	case "text-cuts":
 		t, from, to := textCut(r.Cfg.Index)
@@ -604,6 +621,54 @@ var textCorpus = []string{
 	"\u3010\u3010\u3011x\u3010\u3011\u3011",
 	"text[]",
 	"[]text",
+}
+
+// renderWord: v as command id / status / version / coding in every type of the library that renders such a word.
+func (h *hostile) renderWord(v uint32) {
+	r := h.r
+	img := make([]byte, 20)
+	binary.BigEndian.PutUint32(img, 20)
+	binary.BigEndian.PutUint32(img[4:], v)
+	binary.BigEndian.PutUint32(img[8:], v)
+	binary.BigEndian.PutUint32(img[12:], v)
+	binary.BigEndian.PutUint32(img[16:], v)
+	calls := []struct {
+		name string
+		f    func() string
+	}{
+		{"smpp.Header.String", func() string { x, _ := smpp.PeekHeader(img); return x.String() }},
+		{"smpp.CMDId.String", func() string { return smpp.CMDId(v).String() + smpp.CMDId(v).Error() }},
+		{"smpp.CMDStatus.String", func() string { return smpp.CMDStatus(v).String() + smpp.CMDStatus(v).Error() }},
+		{"cmpp.Header.String", func() string { x, _ := cmpp.PeekHeader(img); return x.String() }},
+		{"cmpp.CommandID.String", func() string { return cmpp.CommandID(v).String() }},
+		{"cmpp.Version.String", func() string { return cmpp.Version(v).String() }},
+		{"cmpp.ConnectRespResultString", func() string { return cmpp.ConnectRespResultString(uint8(v)) }},
+		{"cmpp20.SubmitRespResultString", func() string { return cmpp20.SubmitRespResultString(uint8(v)) }},
+		{"smgp.CommandID.String", func() string { return smgp.CommandID(v).String() }},
+		{"smgp.Status.String", func() string { return smgp.Status(v).String() + smgp.Status(v).Error().Error() }},
+		{"sgip.Header.String", func() string { x, _ := sgip.PeekHeader(img); return x.String() }},
+		{"sgip.CommandID.String", func() string { return sgip.CommandID(v).String() }},
+		{"sgip.RespStatus.String", func() string { return sgip.RespStatus(v).String() }},
+		{"datacoding.SMPPDataCoding.String", func() string {
+			d := datacoding.SMPPDataCoding(int(int32(v)))
+			return d.String() + fmt.Sprint(d.Priority(), d.ToInt(), d.ToUint8())
+		}},
+		{"datacoding.CMPPDataCoding.String", func() string {
+			d := datacoding.CMPPDataCoding(int(int32(v)))
+			return d.String() + fmt.Sprint(d.Priority(), d.ToInt(), d.ToUint8())
+		}},
+	}
+	for _, cl := range calls {
+		var out string
+		p, alloc := r.CallAlloc(cl.name, func() { out = cl.f() })
+		if p != nil {
+			r.Fail("C03", "panic", p.Frame, p.Kind, "%s on header word %#x: %s", cl.name, v, p.Value)
+			continue
+		}
+		if alloc > 1<<20 || len(out) > 1<<16 {
+			r.Fail("C03", "over-allocation", cl.name, "render", "%s on header word %#x allocates %d octets for a %d-octet text", cl.name, v, alloc, len(out))
+		}
+	}
 }
 
 func textCutCount() uint64 {
